@@ -40,6 +40,11 @@ CHECKS = {
     text="TLC checks on Writer.tla, for every history of up to 4 runs over 4 abstract source versions (type changed, file disappears, helper file appears/disappears, an output becomes empty), that a re-run with unchanged sources changes neither content nor mtime and that every path the last run is responsible for holds the content a run into an empty location produces; with the pre-fix helper-file behaviour switched on TLC shows the Idempotent violation that was then reproduced on the real binary (fixed in 21da1da). MC_Writer enumerates every history up to 3 (quick) / 5 (thorough) runs; each maximal history is executed with the real binary, swapping the source tree between runs (type renamed/removed, moved between crates, unit type introduced/removed), in single- and multi-file mode for TypeScript and Swift (quick) / all six languages (thorough). After every run the output location is snapshotted (sha256, mtime_ns) and the whole history is judged by TLC.",
     note="Trusted: TLC; sha256 + st_mtime_ns snapshots with >= 3 ms between runs; the fresh reference is produced by the same binary into an empty directory. Files that no run of the latest version writes (stale leftovers) are outside the property as stated.",
     design_ref="6/C17"),
+ "C20": dict(
+    technique="TLA+ spec of configuration precedence and of -g (Config.tla); TLC enumerates the full option x file matrix with the required effective settings and checks the model of override_configuration against it; every cell run on the real binary (generation per language, -g, reload, second -g) and judged by TLC (Trace_C20.tla)",
+    text="TLC enumerates all 1024 cells of {option absent/present} x {key absent/present} for swift-prefix, kotlin-prefix, java-package, scala-package and go-package, with the effective value per setting required by 'command line, else file, else default', and checks that the model of override_configuration agrees on every cell. Cells (a systematic slice with every single- and all-settings combination in quick; all cells x 4 discoveries in thorough) are executed with the real binary: typeshare.toml is written (found by -c or by ancestor search from cwd / parent / grandparent), generation is run for every language exposing a setting, the prefix/package is read back from the generated code; -g is run with the same options and its TOML parsed, then reloaded with no options, and a second -g must fail leaving the file intact. File-only tables (type_mappings for 6 languages, Swift default_decorators / default_generic_constraints, Go uppercase_acronyms / no_pointer_slice) are in every file and must show up unchanged in the output.",
+    note="Trusted: TLC; extractors for reading prefix/package/mapped names; tomllib. -g is read as 'effective settings of its own invocation over the defaults' (no file is consulted when one is being created). Scala/Go cells without any package are skipped (typeshare refuses them; C07 covers missing packages).",
+    design_ref="6/C20"),
 }
 
 NOT_YET = "not built yet in this round (planned: see DESIGN.md section 6); no check is registered, nothing is claimed"
